@@ -1,5 +1,5 @@
 (* Properties/C19.v — pinned statements only. *)
-From Boreal Require Import Base.Prelude Model.Process Spec.ProcessSpec Proofs.ProcessProofs.
+From Boreal Require Import Base.Prelude Model.Process Spec.ProcessSpec Proofs.ProcessProofs Proofs.FetchProofs.
 
 Theorem C19_chunks_tile :
   forall prm r cs fuel,
@@ -53,6 +53,48 @@ Theorem C19_occurrence_in_one_chunk :
 Proof. exact occurrence_in_one_chunk. Qed.
 
 (* non-vacuity: a concrete region meets the hypotheses of C19_chunks_tile *)
+(* The pagemap optimisation is transparent: a fetch of a file-backed chunk — file-backed pages read from the
+   backing file (zero past its end), the pages the pagemap marks present-or-swapped and not file-backed
+   re-read from /proc/pid/mem — returns exactly the process's own view of the chunk, whenever the kernel is
+   coherent (a page not sent to memory holds the file's bytes).  Every mapping, file length, file offset,
+   chunk position, fetch cap and set of modified pages. *)
+Theorem C19_fetch_is_view :
+  forall fs prm c view,
+    0 < page prm -> r_backed (c_reg c) = true ->
+    let st := fst (describe prm c) in
+    let ln := fetch_len prm c in
+    let off := c_off c + r_foff (c_reg c) in
+    let npages := ln / page prm in
+    let buf0 := firstn (N.to_nat (N.min (r_fsize (c_reg c) - off) ln)) (skipn (N.to_nat off) (r_file (c_reg c)))
+                ++ zeros (ln - N.min (r_fsize (c_reg c) - off) ln) in
+    ln mod page prm = 0 ->
+    off <= r_fsize (c_reg c) ->
+    st / page prm + npages <= pm_entries fs ->
+    read_mem fs st ln = Some view ->
+    (forall i k, i < npages -> page_from_mem (assoc_bits (pm_bits fs) (st / page prm + i)) = false ->
+                 (k < N.to_nat (page prm))%nat ->
+                 nth (N.to_nat (i * page prm) + k) view 0 = nth (N.to_nat (i * page prm) + k) buf0 0) ->
+    model_fetch fs prm c = OFetched st view.
+Proof. exact fetch_is_view. Qed.
+
+(* what a read of /proc/pid/mem returns, byte by byte: the last segment written over each address, zero
+   elsewhere; a read inside a larger read is the corresponding slice *)
+Theorem C19_read_mem_slice :
+  forall fs a len v o l, read_mem fs a len = Some v -> o + l <= len ->
+    read_mem fs (a + o) l = Some (firstn (N.to_nat l) (skipn (N.to_nat o) v)).
+Proof. exact read_mem_slice. Qed.
+
+(* non-vacuity: pages of 4 bytes, a 2-page mapping at 8 of a 6-byte file; the process modified its first page
+   (pagemap: present, not file-backed) and left the second one alone (file bytes 5, 6 then zeros) *)
+Example C19_fetch_example :
+  let fs := {| mem_size := 32; mem_segs := [(8, [9; 9; 9; 9; 5; 6; 0; 0])]; pm_entries := 8; pm_bits := [(2, 8)] |} in
+  let prm := {| chunk := None; max_fetch := 1000; page := 4 |} in
+  let c := {| c_reg := {| r_start := 8; r_len := 8; r_backed := true; r_foff := 0; r_file := [1; 2; 3; 4; 5; 6] |}; c_off := 0 |} in
+  read_mem fs 8 8 = Some [9; 9; 9; 9; 5; 6; 0; 0]
+  /\ model_fetch fs prm c = OFetched 8 [9; 9; 9; 9; 5; 6; 0; 0]
+  /\ page_from_mem (assoc_bits (pm_bits fs) 2) = true /\ page_from_mem (assoc_bits (pm_bits fs) 3) = false.
+Proof. vm_compute. repeat split. Qed.
+
 Example C19_tile_example :
   Tiles 65536 12288 (walk 4 {| chunk := Some 5000; max_fetch := 100; page := 4096 |}
      (pinit [{| r_start := 65536; r_len := 12288; r_backed := false; r_foff := 0; r_file := [] |}])).
@@ -67,3 +109,5 @@ Print Assumptions C19_fetch_cap.
 Print Assumptions C19_reset.
 Print Assumptions C19_pagemap.
 Print Assumptions C19_occurrence_in_one_chunk.
+Print Assumptions C19_fetch_is_view.
+Print Assumptions C19_read_mem_slice.
